@@ -30,6 +30,12 @@ func verifC19BlockTime(slot uint64) int64 { return int64(1_600_000_000 + (slot-4
 
 // verifC19Multi builds epochs 0 and 1 with block-time indexes covering slots 431990..432009 and,
 // if withGsfa, an address index handle each (never dereferenced by the scan branch).
+// verifC19NoBlocktimeEpoch: this epoch is loaded without a block-time index (-1: both have one).
+var verifC19NoBlocktimeEpoch = -1
+
+// verifC19NoGsfaEpoch: with withGsfa, this epoch is loaded without address index (-1: both have one).
+var verifC19NoGsfaEpoch = -1
+
 func verifC19Multi(withGsfa bool) *MultiEpoch {
 	m := NewMultiEpoch(&Options{})
 	for e := uint64(0); e < 2; e++ {
@@ -41,7 +47,10 @@ func verifC19Multi(withGsfa bool) *MultiEpoch {
 			}
 		}
 		ep := &Epoch{epoch: e, blocktimeindex: bt}
-		if withGsfa {
+		if int(e) == verifC19NoBlocktimeEpoch {
+			ep.blocktimeindex = nil
+		}
+		if withGsfa && int(e) != verifC19NoGsfaEpoch {
 			ep.gsfaReader = &gsfa.GsfaReader{}
 		}
 		m.epochs[e] = ep
@@ -160,11 +169,35 @@ func (f *verifC19FilterSpec) matches(t *verifC19Tx) uint64 {
 	return m
 }
 
+// verifC19CheckStream checks the structure of a transaction stream (independent of the filter): only
+// transactions of found blocks, each at most once, ascending (slot, position), with the bytes, meta,
+// position and block time of the archived transaction. It returns the 0/1 vector "sent" by id.
+func verifC19CheckStream(oblig string, stream []*old_faithful_grpc.TransactionResponse) []uint64 {
+	sent := make([]uint64, len(verifC19.txs))
+	prev := -1
+	for _, r := range stream {
+		verifAssert(r != nil && r.Transaction != nil && len(r.Transaction.Transaction) == 1, oblig+": response without the archived transaction bytes")
+		id := int(r.Transaction.Transaction[0])
+		verifAssert(id > prev, oblig+": stream not in ascending (slot, position) order, or a transaction sent twice")
+		prev = id
+		t := verifC19.txs[id]
+		verifAssert(verifC19.slots[t.slotIx].outcome == verifC19Found, oblig+": transaction of a slot without block")
+		verifAssert(len(r.Transaction.Meta) == 1 && int(r.Transaction.Meta[0]) == id|0x80, oblig+": meta of another transaction")
+		verifAssert(r.Transaction.Index != nil && *r.Transaction.Index == uint64(t.pos), oblig+": wrong position index")
+		verifAssert(r.BlockTime == verifC19BlockTime(verifC19.start+uint64(t.slotIx)), oblig+": wrong block time")
+		sent[id] = 1
+	}
+	return sent
+}
+
 // verifC19RunScan streams the window through the real StreamTransactions (block-scan branch) and
 // checks the stream against the reference.
 func verifC19RunScan(oblig string, f *verifC19FilterSpec, withGsfa, openEnded bool) {
 	n := len(verifC19.slots)
 	verifC19.openEnded = openEnded
+	if openEnded {
+		verifC19.openLimit = int(maxSlotsToStream)
+	}
 
 	// what the property expects to be examined: the transactions of the found blocks before the
 	// first broken slot
@@ -223,20 +256,7 @@ func verifC19RunScan(oblig string, f *verifC19FilterSpec, withGsfa, openEnded bo
 	// structure of the stream (independent of the filter): only transactions of the examined
 	// blocks, each at most once, ascending (slot, position), bytes, meta, index and block time of
 	// the archived transaction.
-	sent := make([]uint64, len(verifC19.txs))
-	prev := -1
-	for _, r := range ser.sent {
-		verifAssert(r != nil && r.Transaction != nil && len(r.Transaction.Transaction) == 1, oblig+": response without the archived transaction bytes")
-		id := int(r.Transaction.Transaction[0])
-		verifAssert(id > prev, oblig+": stream not in ascending (slot, position) order, or a transaction sent twice")
-		prev = id
-		t := verifC19.txs[id]
-		verifAssert(verifC19.slots[t.slotIx].outcome == verifC19Found, oblig+": transaction of a slot without block")
-		verifAssert(len(r.Transaction.Meta) == 1 && int(r.Transaction.Meta[0]) == id|0x80, oblig+": meta of another transaction")
-		verifAssert(r.Transaction.Index != nil && *r.Transaction.Index == uint64(t.pos), oblig+": wrong position index")
-		verifAssert(r.BlockTime == verifC19BlockTime(verifC19.start+uint64(t.slotIx)), oblig+": wrong block time")
-		sent[id] = 1
-	}
+	sent := verifC19CheckStream(oblig, ser.sent)
 	verifAssert(err == wantErr, oblig+": wrong result (nil unless a slot is broken; a skipped slot is not an error)")
 
 	// the set: first up to a uniform polarity, then exactly
@@ -281,6 +301,7 @@ var verifC19GsfaProfiles = [][3]int{
 var verifC19Templates = []string{"2", "11", "s1", "1b", "b1", ""}
 
 func verifC19ChooseFilter(full bool) (*verifC19FilterSpec, bool) {
+	small := verifParam("small_profiles", 0) == 1 // quick tier: fewer list profiles, one unset-flag case
 	f := &verifC19FilterSpec{}
 	withGsfa := verifChoice("address_index_loaded", 2) == 1
 	switch verifChoice("filter_kind", 3) {
@@ -288,9 +309,14 @@ func verifC19ChooseFilter(full bool) (*verifC19FilterSpec, bool) {
 		f.nilFilter = true
 		return f, withGsfa
 	case 1:
-		if verifChoice("which_flag_unset", 2) == 0 {
+		switch {
+		case small && withGsfa:
+			f.fUnset = true
+		case small:
 			f.voteUnset = true
-		} else {
+		case verifChoice("which_flag_unset", 2) == 0:
+			f.voteUnset = true
+		default:
 			f.fUnset = true
 		}
 	}
@@ -307,6 +333,10 @@ func verifC19ChooseFilter(full bool) (*verifC19FilterSpec, bool) {
 		p = [3]int{0, verifChoice("exclude", 3), verifChoice("required", 3)}
 	case full:
 		p = [3]int{verifChoice("include", 3), verifChoice("exclude", 3), verifChoice("required", 3)}
+	case withGsfa && small:
+		p = [][3]int{{0, 1, 0}, {0, 3, 2}}[verifChoice("profile", 2)]
+	case small:
+		p = [][3]int{{1, 0, 0}, {2, 1, 0}, {3, 0, 2}}[verifChoice("profile", 3)]
 	case withGsfa:
 		p = verifC19GsfaProfiles[verifChoice("profile", len(verifC19GsfaProfiles))]
 	default:
@@ -320,6 +350,9 @@ func VerifC19Filter() {
 	verifC19Reset(verifC19Base)
 	full := verifParam("full_filters", 0) == 1
 	tpls := verifC19Templates
+	if verifParam("small_profiles", 0) == 1 {
+		tpls = []string{"2", "11", "s1", "1b", ""}
+	}
 	if verifParam("more_windows", 0) == 1 {
 		tpls = append(append([]string{}, tpls...), "01", "1s", "1", "111", "1s1", "12", "21", "s", "b", "0", "ss1", "1sb")
 	}
@@ -333,14 +366,18 @@ func VerifC19Filter() {
 	verifC19RunScan("C19.filter", f, withGsfa, openEnded)
 }
 
-// C19.shapes: one block of two transactions; the first takes every transaction shape of the
-// model (message version, address-table lookup, signature count, instruction count, meta era),
-// the second is a plain legacy transaction.
+// C19.shapes: one block whose first transaction takes every transaction shape of the model (message
+// version, address-table lookup, signature count, instruction count, meta era); thorough: followed
+// by a plain legacy transaction.
 func VerifC19Shapes() {
 	verifC19Reset(verifC19Base)
 	shape := verifChoice("shape", 8)
 	first := true
-	verifC19Window("2", func(t *verifC19Tx) {
+	tpl := "1" // quick: the shaped transaction alone
+	if verifParam("second_tx", 0) == 1 {
+		tpl = "2"
+	}
+	verifC19Window(tpl, func(t *verifC19Tx) {
 		if !first {
 			return
 		}
